@@ -1,4 +1,166 @@
 package main
 
-// runVariants is the thorough-tier self-test: filled in by variants_impl.go.
-var runVariants = func(c *Ctx) {}
+import (
+	"encoding/json"
+	"fmt"
+	"os"
+	"os/exec"
+	"path/filepath"
+	"sort"
+	"strings"
+	"sync"
+)
+
+// Thorough-tier self-test. Every patch under /verif/variants/breaking/<prop>
+// and every seeded change under /verif/seeded whose meta.json names this
+// property as a detector must make the analyzer report a violation; every
+// patch under /verif/variants/silent/<prop> (behaviour-preserving edits)
+// must leave it silent. Each variant is applied to a scratch copy of /repo
+// outside /repo and /verif, built, analysed in a fresh process, and removed.
+
+type variantCase struct {
+	ID    string
+	Patch string
+	Want  int // expected exit status of the analyzer
+}
+
+func (c *Ctx) variantCases() []variantCase {
+	var out []variantCase
+	for kind, want := range map[string]int{"breaking": 1, "silent": 0} {
+		ps, _ := filepath.Glob(filepath.Join(c.Verif, "variants", kind, c.Prop, "*.patch"))
+		for _, p := range ps {
+			out = append(out, variantCase{ID: kind + "/" + strings.TrimSuffix(filepath.Base(p), ".patch"), Patch: p, Want: want})
+		}
+		// silent variants apply to every property: a behaviour-preserving edit must not alarm anybody
+		if kind == "silent" {
+			ps, _ := filepath.Glob(filepath.Join(c.Verif, "variants", kind, "*", "*.patch"))
+			for _, p := range ps {
+				if filepath.Base(filepath.Dir(p)) == c.Prop {
+					continue
+				}
+				out = append(out, variantCase{ID: kind + "/" + filepath.Base(filepath.Dir(p)) + "/" + strings.TrimSuffix(filepath.Base(p), ".patch"), Patch: p, Want: want})
+			}
+		}
+	}
+	metas, _ := filepath.Glob(filepath.Join(c.Verif, "seeded", "*", "meta.json"))
+	for _, m := range metas {
+		b, err := os.ReadFile(m)
+		if err != nil {
+			continue
+		}
+		var meta struct {
+			DetectedBy string `json:"detected_by"`
+		}
+		if json.Unmarshal(b, &meta) != nil || !strings.Contains(meta.DetectedBy, c.Prop+"[") {
+			continue
+		}
+		dir := filepath.Dir(m)
+		out = append(out, variantCase{ID: "seeded/" + filepath.Base(dir), Patch: filepath.Join(dir, "patch.diff"), Want: 1})
+	}
+	sort.Slice(out, func(i, j int) bool { return out[i].ID < out[j].ID })
+	return out
+}
+
+var runVariants func(c *Ctx)
+
+func init() {
+	runVariants = func(c *Ctx) {
+		cases := c.variantCases()
+		if len(cases) == 0 {
+			return
+		}
+		self, err := os.Executable()
+		if err != nil {
+			c.checkError("variants: cannot locate the analyzer binary: " + err.Error())
+			return
+		}
+		env := append(os.Environ(), "GOFLAGS=-mod=mod", "GOPROXY=off", "GOSUMDB=off", "GOTOOLCHAIN=local", "GOWORK=off")
+		type result struct {
+			id, status string
+			err        bool
+		}
+		results := make([]result, len(cases))
+		sem := make(chan struct{}, 4)
+		var wg sync.WaitGroup
+		for i, vc := range cases {
+			wg.Add(1)
+			go func(i int, vc variantCase) {
+				defer wg.Done()
+				sem <- struct{}{}
+				defer func() { <-sem }()
+				tmp, err := os.MkdirTemp("", "sizercheck-variant-")
+				if err != nil {
+					results[i] = result{vc.ID, "cannot create scratch dir: " + err.Error(), true}
+					return
+				}
+				defer os.RemoveAll(tmp)
+				dst := filepath.Join(tmp, "repo")
+				if out, err := exec.Command("rsync", "-a", "--exclude", ".git", strings.TrimSuffix(c.Repo, "/")+"/", dst+"/").CombinedOutput(); err != nil {
+					results[i] = result{vc.ID, "copy failed: " + string(out), true}
+					return
+				}
+				ap := exec.Command("git", "apply", "--whitespace=nowarn", vc.Patch)
+				ap.Dir = dst
+				if out, err := ap.CombinedOutput(); err != nil {
+					results[i] = result{vc.ID, "skipped: patch no longer applies to the edited tree (" + firstLine(string(out)) + ")", false}
+					return
+				}
+				bld := exec.Command("go", "build", "./...")
+				bld.Dir = dst
+				bld.Env = append(env, "GOCACHE="+filepath.Join(tmp, "gocache"))
+				if out, err := bld.CombinedOutput(); err != nil {
+					results[i] = result{vc.ID, "skipped: variant does not build (" + firstLine(string(out)) + ")", false}
+					return
+				}
+				an := exec.Command(self, "-prop", c.Prop, "-tier", "quick", "-repo", dst, "-verif", c.Verif, "-no-evidence")
+				an.Env = env
+				out, _ := an.CombinedOutput()
+				code := an.ProcessState.ExitCode()
+				rules := ""
+				for _, ln := range strings.Split(string(out), "\n") {
+					if strings.HasPrefix(ln, "  VIOLATED") || strings.HasPrefix(ln, "  UNDECIDED") {
+						f := strings.Fields(ln)
+						if len(f) >= 3 {
+							rules += " " + f[1] + ":" + f[2]
+						}
+					}
+				}
+				switch {
+				case code == vc.Want && vc.Want == 1:
+					results[i] = result{vc.ID, "fired:" + rules, false}
+				case code == vc.Want:
+					results[i] = result{vc.ID, "silent as required", false}
+				case vc.Want == 1:
+					results[i] = result{vc.ID, fmt.Sprintf("NOT REPORTED (exit %d)", code), true}
+				default:
+					results[i] = result{vc.ID, fmt.Sprintf("FALSE ALARM on a behaviour-preserving edit (exit %d):%s", code, rules), true}
+				}
+			}(i, vc)
+		}
+		wg.Wait()
+		fired := 0
+		for _, r := range results {
+			c.Variants = append(c.Variants, r.id+" — "+r.status)
+			fmt.Printf("  variant %-60s %s\n", r.id, r.status)
+			if r.err {
+				c.checkError("self-test variant " + r.id + ": " + r.status)
+			}
+			if strings.HasPrefix(r.status, "fired") || strings.HasPrefix(r.status, "silent") {
+				fired++
+			}
+		}
+		c.Stats["variants_run"] = len(results)
+		c.Stats["variants_ok"] = fired
+	}
+}
+
+func firstLine(s string) string {
+	s = strings.TrimSpace(s)
+	if i := strings.IndexByte(s, '\n'); i >= 0 {
+		s = s[:i]
+	}
+	if len(s) > 160 {
+		s = s[:160]
+	}
+	return s
+}
